@@ -54,6 +54,10 @@ class Forget(DoitCmdBase):
             tasks = dict([(t.name, t) for t in self.task_list])
             check_tasks_exist(tasks, self.sel_tasks)
             forget_list = self.sel_tasks
+            if forget_list is None:
+                # no task specified and no `default_tasks`: all tasks
+                forget_list = [t.name for t in self.task_list
+                               if not t.subtask_of]
 
             if forget_sub:
                 to_forget = list(tasks_and_deps_iter(tasks, forget_list, True))
